@@ -5,13 +5,18 @@ import AioslskVerif.Proofs.XferTasks
 Property theorems only (model: `Model/XferTasks.lean`, invariant: `Proofs/XferTasks.lean`).  The
 model is the code **with** `fixes/C06-single-flight.patch` (spawn guards "slot holds no running task"
 and "no state change in progress", identity check in the done-callbacks, `remove` cancels what is
-left in the slots) and `fixes/C06-init-download-refused.patch` (a download initialisation whose
-`state.initialize()` is refused answers `allowed=False` and ends).  `run ops` is the state after any
+left in the slots), `fixes/C06-init-download-refused.patch` (a download initialisation whose
+`state.initialize()` is refused answers `allowed=False` and ends) and `fixes/C06-peer-queue-removed.patch`
+(the `PeerTransferQueue` handler looks the transfer up again after it asked the shares manager).
+`run ops` is the state after any
 list of ops — cycles looking at any transfers at any instant, peer transfer requests **also while a
 call holds the state lock**, the peer's refusal / PeerUploadFailed, first steps / ends (any outcome)
 / done-callbacks of any task in any order, calls of abort / pause / remove at any point, the
 intermediate step of remove and their returns, re-queues, downloads that failed without a reason
-(retried by the manager) — i.e. any schedule of the abstraction.  On the tree without the first patch
+(retried by the manager), uploads whose task calls `state.fail()` and goes on (the write-error path
+that still delivers `PeerUploadFailed`: FAILED with a live task), `PeerTransferQueue` for an upload in
+the list arriving (`peerQueueStart`) and its handler being resumed (`peerQueueEnd`) at any later
+point — i.e. any schedule of the abstraction.  On the tree without the first patch
 both theorems are false (see `fixes/C06-single-flight.md`); without the second the initialisation
 started by a peer request during a call went on after the call had returned
 (`fixes/C06-init-download-refused.md`); the witnesses are replayed by the check.
@@ -64,6 +69,15 @@ theorem C06_inert_task_is_silent (ops : List Op) (k t : Nat) (o : Outcome) (hk :
     obs ((step (run ops) (.taskStart t)).xs k) = obs ((run ops).xs k) ∧
       obs ((step (run ops) (.taskEnd t o)).xs k) = obs ((run ops).xs k) :=
   ⟨(quiet_step (inv_run ops) hk hq (.taskStart t) rfl).1, (quiet_step (inv_run ops) hk hq (.taskEnd t o) rfl).1⟩
+
+/-- A peer message handler that found the transfer BEFORE the call returned and is resumed AFTER it (it was waiting
+for the shares manager): being resumed is not an action of the peer — `peerQueueEnd k` may occur anywhere in the
+continuation of `C06_quiescent_after_cancel` — and it leaves a quiet transfer exactly as it is (it looks the transfer
+up again: one that left the list is not touched; one that is ABORTED / PAUSED is not re-queued by this message). -/
+theorem C06_suspended_handler_is_silent (ops : List Op) (k : Nat) (hk : k < (run ops).nx)
+    (hq : ((run ops).xs k).quiet = true) :
+    obs ((step (run ops) (.peerQueueEnd k)).xs k) = obs ((run ops).xs k) :=
+  (quiet_step (inv_run ops) hk hq (.peerQueueEnd k) rfl).1
 
 /-- The return of a call makes the transfer quiet, and it can only return when every task it
 cancelled has finished (for `remove`: after its `abort` part is through, `removeMid`). -/
@@ -155,5 +169,31 @@ example :
       .callResume 0, .cycle [0]]
     (run [.addFailed, .cycle [0]]).nt = 1 ∧ s.nt = 1 ∧ (s.xs 0).quiet = true ∧ (s.xs 0).removed = true ∧
       (s.xs 0).rq = false := by decide
+
+/-- an upload hits a write error: `state.fail()` and then, in the same task, the delivery of `PeerUploadFailed` over a
+slow connection — FAILED with a live task, which is the one the slot holds.  `remove` (the only call FAILED accepts)
+cancels it; it returns only when the task is gone; nothing is counted for the transfer after the failure -/
+example :
+    let s0 := run [.addUpload, .cycle [0], .taskStart 0, .taskEnd 0 .transferring, .taskEnd 0 .failing, .cycle [0]]
+    let s := [Op.call 0 .remove, .callResume 0, .taskEnd 0 .ok, .doneCallback 0, .callResume 0, .cycle [0]].foldl step s0
+    (s0.xs 0).st = .failed ∧ (s0.tasks 0).live = true ∧ (s0.xs 0).ttSlot = some 0 ∧ s0.nt = 1 ∧
+      (s.xs 0).st = .failed ∧ (s.xs 0).removed = true ∧ (s.xs 0).quiet = true ∧ (s.xs 0).acts = (s0.xs 0).acts ∧
+      s.nt = 1 ∧ (s.tasks 0).live = false := by decide
+
+/-- … the peer queues the file again while that delivery is still pending: QUEUED, but no second task is started as long as
+the slot holds the first; `abort` cancels it and nothing is left -/
+example :
+    let s := run [.addUpload, .cycle [0], .taskStart 0, .taskEnd 0 .transferring, .taskEnd 0 .failing, .peerQueueStart 0,
+      .peerQueueEnd 0, .cycle [0], .call 0 .abort, .taskEnd 0 .ok, .doneCallback 0, .callResume 0, .cycle [0]]
+    s.nt = 1 ∧ (s.xs 0).st = .aborted ∧ (s.xs 0).quiet = true ∧ (s.tasks 0).live = false := by decide
+
+/-- the peer's `PeerTransferQueue` for a FAILED upload: the handler finds it and asks the shares manager; the user removes
+the upload meanwhile; the handler goes on after `remove` returned and does not touch it.  Without the `remove` the same
+handler re-queues it. -/
+example :
+    let s0 := run [.addUpload, .cycle [0], .taskStart 0, .taskEnd 0 .fail, .doneCallback 0, .peerQueueStart 0]
+    let s := [Op.call 0 .remove, .callResume 0, .peerQueueEnd 0].foldl step s0
+    (s.xs 0).st = .failed ∧ (s.xs 0).removed = true ∧ (s.xs 0).quiet = true ∧ (s.xs 0).pq = 0 ∧
+      ((step s0 (.peerQueueEnd 0)).xs 0).st = .queued := by decide
 
 end AioslskVerif.C06
